@@ -1,6 +1,7 @@
 #![allow(dead_code)]
 mod c05;
 mod c06;
+mod c07;
 mod c08;
 mod c10;
 mod c11;
@@ -59,6 +60,7 @@ fn main() {
         "worker" => c17::worker(&args[2]),
         "c08" => c08::run(&out, &tier, seed, shards, replay),
         "c08worker" => c08::worker(&args[2], &args[3]),
+        "c07" => c07::run(&out, &tier, seed, shards, replay),
         "c11" => c11::run(&out, &tier, seed, shards, replay),
         other => {
             eprintln!("unknown command {}", other);
